@@ -79,21 +79,24 @@ def Link.wideNameRev (l : Link) : String := l.dest ++ "_to_" ++ l.source ++ "_wi
 def linkOf (g : Graph) (e : Edge) : Link :=
   { source := e.src, dest := e.dst, bidir := g.hasEdge e.dst e.src }
 
+/-- one protocol of one endpoint's manager (`want` = input) or subordinate (output) list: the protocol takes that
+    direction unless it already has the other one -/
+def dirStep (d : Desc) (dirs : List (String × String)) (pn : String) (want : String) : D (List (String × String)) := do
+  let some p := d.protocols.find? (·.name == pn) | throw (.protocol s!"StopIteration: protocol {pn} not found")
+  let cur := match dirs.find? (·.1 == pn) with
+    | some (_, v) => some v
+    | none => p.direction
+  match cur with
+  | none => pure (dirs ++ [(pn, want)])
+  | some v => if v == want then pure dirs else
+      throw (.protocol "Protocol cannot be used for both manager and subordinate")
+
 /-- protocol direction inference of compile_endpoints; returns protocol name ↦ direction -/
 def inferDirections (d : Desc) (g : Graph) : D (List (String × String)) :=
   (g.nodesOfKind .endpoint).foldlM (fun dirs nd => do
     let ep := d.endpoints.getD nd.descIdx default
-    let step (dirs : List (String × String)) (pn : String) (want : String) : D (List (String × String)) := do
-      let some p := d.protocols.find? (·.name == pn) | throw (.protocol s!"StopIteration: protocol {pn} not found")
-      let cur := match dirs.find? (·.1 == pn) with
-        | some (_, v) => some v
-        | none => p.direction
-      match cur with
-      | none => pure (dirs ++ [(pn, want)])
-      | some v => if v == want then pure dirs else
-          throw (.protocol "Protocol cannot be used for both manager and subordinate")
-    let dirs ← (ep.mgr.getD []).foldlM (fun ds pn => step ds pn "input") dirs
-    (ep.sbr.getD []).foldlM (fun ds pn => step ds pn "output") dirs) []
+    let dirs ← (ep.mgr.getD []).foldlM (fun ds pn => dirStep d ds pn "input") dirs
+    (ep.sbr.getD []).foldlM (fun ds pn => dirStep d ds pn "output") dirs) []
 
 def directionOf (d : Desc) (dirs : List (String × String)) (p : ProtDesc) : Option String :=
   match dirs.find? (·.1 == p.name) with
